@@ -320,6 +320,14 @@ func (e *Env) yieldHook(site string, key uint64) {
 		pg = &parkedG{Site: site, Key: key, Hit: n, ch: make(chan struct{})}
 		e.parked = append(e.parked, pg)
 	}
+	// A request issued while a reader loop is inside a handler replaces the loop. When the old
+	// loop comes back its select may have two ready cases ("replaced" and "message queued"), so it
+	// may keep consuming next to the new loop: who processes what, and who draws which outgoing
+	// message ID, is the runtime's choice from then on. Such runs are marked racy (DESIGN 3.4).
+	if site == "reader.replace.beforeLock" && e.siteHits["reader.afterFlagClear"] > e.siteHits["reader.afterHandler"] {
+		e.racy = true
+		e.Probes["readerLoop.replacedWhileInHandler"]++
+	}
 	e.mu.Unlock()
 	if park {
 		pg.Gid = goid()
